@@ -185,6 +185,12 @@ func (r *reference) resolve(cfg *Config, opts *options) (value, error) {
 }
 
 func (r *reference) eval(cfg *Config, opts *options) (string, error) {
+	// the reference is only "active" while it is being evaluated; using it again
+	// later in the same string, or reaching it along another path, is no cycle
+	parentFields := opts.activeFields
+	opts.activeFields = newFieldSet(parentFields)
+	defer func() { opts.activeFields = parentFields }()
+
 	v, err := r.resolve(cfg, opts)
 	if err != nil {
 		return "", err
